@@ -555,11 +555,9 @@ func (c *Ctx) bin(op Op, a, b *Term) *Term {
 			if a.Op == OZeroExt && b.K&mask(a.A[0].Sort.W) == mask(a.A[0].Sort.W) {
 				return a
 			}
-			// (x | k1) & k2 where k1&k2==0 -> x & k2 ; where k1&k2==k2 -> k2
+			// (x | k1) & k2 -> (x & k2) | (k1 & k2)
 			if a.Op == OBvOr && a.A[1].IsConst() {
-				if a.A[1].K&b.K == 0 {
-					return c.bin(OBvAnd, a.A[0], b)
-				}
+				return c.bin(OBvOr, c.bin(OBvAnd, a.A[0], b), c.Const(w, a.A[1].K&b.K))
 			}
 		}
 	case OBvOr:
